@@ -2,9 +2,9 @@ from scoping_common import *
 
 META = {
     "category": "proof",
-    "text": 'On the C13 model of the implementation (whose resolution is proved equal to Lua scoping for every program): refs_eq_preimage — the cells of a declaration in the reference index are exactly the positions the index resolves to it, with refs_contain_resolved / refs_only_resolved linking them to the reference resolver; rename_edits_exact — the edits of a rename are the declaration token and its references, each position once, each a token-sized replacement by the new name, nothing else; rename_preserves_resolution (+ ord_resolver_agrees, rename_preserves_resolution_positional) — alpha-renaming: renaming a declaration that has a token and exactly the uses Lua scoping resolves to it to a fresh name leaves the resolution of every use unchanged, for every program. The model is tied to the code per run (cells of the real reference index in order, the WorkspaceEdit of the real rename handler, the edited text = the printed renamed program) and the property is searched on the real handlers: references and rename at every declaration and use of every local, edits applied, the program re-analysed and its resolution structure compared.',
-    "note": 'Trusted: Coq kernel; the hand models (C13 declaration walk, C14 reference cells and rename edits) validated by correspondence, not proved equal to the Rust; Pairwise disjointness of the edit ranges is proved as pairwise different token starts (the token separation of the printed text is checked by the search, not proved). References of the real handler also follow function-value aliases (known finding); doc @param renaming, globals, members and types are outside the model. Axioms: none.',
-    "technique": "Coq proofs on the C13 model (invariant of the reference map by induction over the walk; alpha-renaming by mutual induction over the syntax) + exact model-vs-implementation correspondence + search through the real rename/references handlers with re-analysis of the edited program",
+    "text": 'On the C13 model of the implementation (whose resolution is proved equal to Lua scoping for every program of the C13 fragment): refs_eq_preimage — the cells of a declaration in the reference index are exactly the positions the index resolves to it, with refs_contain_resolved / refs_only_resolved linking them to the reference resolver; the model carries the range of the referring token in every cell (cells_are_tokens: each cell is the range of a name token of the printed program); rename_edits_exact — the edits of a rename are the range of the declaration token and the ranges of its cells, each once, with the new name, nothing else; rename_edits_disjoint — any two different edits have disjoint ranges; rename_preserves_resolution (+ ord_resolver_agrees, rename_preserves_resolution_positional) — alpha-renaming: renaming a declaration that has a token and exactly the uses Lua scoping resolves to it to a fresh name leaves the resolution of every use unchanged, for every program. The model is tied to the code per run (cells of the real reference index with their ranges in order, the WorkspaceEdit of the real rename handler, the edited text = the printed renamed program) and the property is searched on the real handlers: references and rename at every declaration and use of every local, edits applied, the program re-analysed and its resolution structure compared.',
+    "note": 'Trusted: Coq kernel; the hand models (C13 declaration walk, C14 reference cells and rename edits) validated by correspondence, not proved equal to the Rust. The references handler additionally follows value aliases (two known findings); doc @param renaming, globals, members and types are outside the model. Axioms: none.',
+    "technique": "Coq proofs on the C13 model (invariants of the reference map by induction over the walk; separation of the name tokens of the printed program; alpha-renaming by mutual induction over the syntax) + exact model-vs-implementation correspondence + search through the real rename/references handlers with re-analysis of the edited program",
 }
 
 THEOREMS = [
@@ -12,6 +12,8 @@ THEOREMS = [
     ("refs_contain_resolved", "theorem"),
     ("refs_only_resolved", "theorem"),
     ("rename_edits_exact", "theorem"),
+    ("cells_are_tokens", "theorem"),
+    ("rename_edits_disjoint", "theorem"),
     ("rename_preserves_resolution", "theorem"),
     ("ord_resolver_agrees", "theorem"),
     ("rename_preserves_resolution_positional", "theorem"),
@@ -30,10 +32,10 @@ def main(argv):
         ck.coq_gates(["C13", "C14"], THEOREMS, "EV.C14.Props")
     if bins:
         if ok or os.path.exists(os.path.join(COQ, "theories/C14/Corr.vo")):
-            correspondence14(ck, bins["c14"], ck.scale(250, 2500))
+            correspondence14(ck, bins["c14"], ck.scale(250, 1500))
         if ck.broken:
             ck.deep = True
-        search14(ck, bins["c14"], ck.scale(4000, 60000))
+        search14(ck, bins["c14"], ck.scale(4000, 40000))
     ck.finish(
         trusted_base=TRUSTED14,
         rule="programs of the C13 mini-Lua fragment (8 hand-written witnesses, the corpus, seeded random programs over 2-5 names); for "
